@@ -278,7 +278,7 @@ func TestSerialize(t *testing.T) {
 
 // TestAllTypes: every serializable struct type x 200 fill seeds x 4 option sets on a dirty buffer (deterministic sweep).
 func TestAllTypes(t *testing.T) {
-	n := 60
+	n := 30
 	if vh.Thorough() {
 		n = 1500
 	}
